@@ -12,7 +12,7 @@
   hypothesis appears exactly where a division is cancelled.
 
   Status: every clause is proved at full strength EXCEPT `conditional`, where the code deviates from the specification
-  (finding F11; the subscript part is repaired by `fix:` f502ca2, the bound-range part is open because a test pins it):
+  (finding F11; the subscript part is repaired by `fix:` a54a0f5, the bound-range part is open because a test pins it):
   `conditional_den` states what the code computes, `conditional_den_spec_partial` the specification under the hypothesis
   that the collected variables are the free ones, `conditional_complement_exact_iff` characterises that hypothesis (every
   name bound by an inner Sum is in `ranges` or free elsewhere), `conditional_den_spec_observational` is the specification on
@@ -63,7 +63,7 @@ theorem normalize_marginalize_den (e c : Expr) (r : List Var) (h : e.normalizeMa
       sumVars env.card ((upgradeOrdering (r.map Var.base)).map (·.name)) (fun τ => den env σ' e τ) σ :=
   Y0.normalize_marginalize_den e c r h σ
 
-/-! ## conditional (finding F11: the subscript part is repaired by `fix:` f502ca2, the bound-range part is open) -/
+/-! ## conditional (finding F11: the subscript part is repaired by `fix:` a54a0f5, the bound-range part is open) -/
 
 /-- what `e.conditional(ranges)` denotes, for the code as it is: `e / Σ_{collected ∖ ranges} e`, where `collected` is every
 non-`Intervention` variable `_iter_variables` yields (event variables and `Sum` ranges; subscripts are skipped by both
@@ -155,7 +155,7 @@ theorem names_filter_plain (vs : List Var) (hiv : vs.all (fun v => !v.isIv) = tr
   rw [List.filter_eq_self.mpr (by simpa [List.all_eq_true] using hiv)]
 
 mutual
-/-- **what the code collects** (after `fix:` f502ca2): the free event names and the names bound by an inner `Sum` — no
+/-- **what the code collects** (after `fix:` a54a0f5): the free event names and the names bound by an inner `Sum` — no
 subscript name -/
 theorem collected_names_iff : ∀ (e : Expr), noIvObject e = true →
     ∀ x, x ∈ (e.iterVars.filter (fun (v : Var) => !v.isIv)).map (·.name) ↔ x ∈ freeEventNames e ∨ x ∈ boundRangeNames e
@@ -292,7 +292,7 @@ theorem boundRangeNamesList_of_sumFree : ∀ (fs : List Expr), sumFreeList fs = 
 end
 
 /-- corollary: on every `Sum`-free expression — interventional leaves `P[x](…)`, their products and fractions — `conditional`
-meets the specification (before `fix:` f502ca2 this needed the absence of subscripts) -/
+meets the specification (before `fix:` a54a0f5 this needed the absence of subscripts) -/
 theorem conditional_den_spec_sumfree (e c : Expr) (r : List Var) (hiv : noIvObject e = true) (hsf : sumFree e = true)
     (h : e.conditional r = .ok c) (σ : Val)
     (xs : List Name) (hxs : xs.Nodup) (hmem : ∀ x, x ∈ xs ↔ x ∈ freeEventNames e ∧ x ∉ r.map (·.name)) :
@@ -323,7 +323,7 @@ theorem conditional_collects_bound_range :
     ((Expr.sum (.prob none [Var.plain 2] []) [Var.plain 0]).conditionalComplement []).map (·.name) = [2, 0] ∧
       freeEventNames (Expr.sum (.prob none [Var.plain 2] []) [Var.plain 0]) = [2] := by decide
 
-/-- the subscript part of F11 is gone (`fix:` f502ca2): for `P[A](C) * P(D)` (A=0, C=2, D=3) the code normalises over `C, D`
+/-- the subscript part of F11 is gone (`fix:` a54a0f5): for `P[A](C) * P(D)` (A=0, C=2, D=3) the code normalises over `C, D`
 only — before the fix it collected `[2, 0, 3]` -/
 theorem conditional_skips_subscripts :
     ((Expr.prod [.prob none [{ name := 2, ivs := [⟨0, false⟩] }] [], .prob none [Var.plain 3] []]).conditionalComplement
